@@ -1004,22 +1004,27 @@ const nKinds = 20
 func usesFix(k int) bool { return (k >= 8 && k <= 11) || (k >= 15 && k <= 17) }
 
 // encCase: field values -> bytes -> decoded again.
+func kindTakesPayload(k int) bool { return k != 7 && k < 18 }
+
 func (rn *runner) encCase(r *vgen.Rand, k int) {
 	run := rn.run
 	fix := usesFix(k) && r.Bool()
-	var payload []byte
 	plen := vgen.Pick(r, 0, 0, 1, 3, 8, 11)
-	probe := rn.genValue(r.Fork(1), k, fix, plen)
-	if takesPayload(probe) {
-		payload = r.Fork(2).Bytes(plen)
-	} else {
+	if !kindTakesPayload(k) {
 		plen = 0
 	}
+	payload := r.Fork(2).Bytes(plen)
+	vr := r.Fork(1)
 	if !run.Want() {
 		run.Skip()
 		return
 	}
-	v := rn.genValue(r.Fork(1), k, fix, plen) // same stream as probe: same value
+	rn.encValue(rn.genValue(vr, k, fix, plen), fix, payload)
+}
+
+// encValue: one encoder-direction case for the value v.
+func (rn *runner) encValue(v any, fix bool, payload []byte) {
+	run := rn.run
 	lay, id := layOf(v)
 	before := term(v)
 	var hb []byte
@@ -1169,14 +1174,14 @@ func main() {
 	}
 
 	// 1. encoder direction
-	nEnc := run.Count(1200, 60000)
+	nEnc := run.Count(1000, 30000)
 	for i := 0; i < nEnc; i++ {
 		r := rng.Fork(uint64(i))
 		rn.encCase(r, r.Intn(nKinds))
 	}
 
 	// 2. decoder direction: valid, mutated, truncated
-	nDec := run.Count(700, 40000)
+	nDec := run.Count(600, 20000)
 	for i := 0; i < nDec; i++ {
 		r := rng.Fork(uint64(1_000_000 + i))
 		k := r.Intn(nKinds)
@@ -1288,6 +1293,13 @@ func main() {
 		rn.decCase("Hdr.LRaw", 0, bs, "boundary", true)
 		if j < 2 || d.NumHops > 64 || d.NumHops < 3 {
 			rn.decCase("Hdr.LDec", 0, bs, "boundary", true)
+		}
+		if j < 3 { // the encoder direction at the maximum path size
+			if run.Want() {
+				rn.encValue(d, false, nil)
+			} else {
+				run.Skip()
+			}
 		}
 	}
 	run.Finish()
